@@ -675,9 +675,9 @@ def jobs(tier, seed):
     out.append(Job('fermat_K%d' % K, fermat_soundness, dict(K=K),
                    timeout=1200 if thorough else 300, cost=K + 1))
   out.append(Job('cf_loop', cf_soundness,
-                 dict(bits=[64] if not thorough else [64, 65, 66, 67],
-                      cflen=1 if not thorough else 2),
-                 timeout=900, cost=10))
+                 dict(bits=[64] if not thorough else [64, 65],
+                      cflen=1),
+                 timeout=1800, cost=10))
   for d0 in ([1, 7] if not thorough else [1, 7, 255, 2**31 - 1]):
     out.append(Job('fraction_d%d' % d0, fraction_soundness,
                    dict(bits=[64, 65], d0=d0), timeout=600, cost=5))
@@ -685,10 +685,10 @@ def jobs(tier, seed):
   out.append(Job('guess', guess_soundness,
                  dict(bits=[64, 65], cflen=1 if not thorough else 2),
                  timeout=900, cost=8))
-  for L in ([6, 7, 8] if not thorough else [6, 7, 8, 9, 10, 11, 12]):
+  for L in ([6, 7, 8] if not thorough else [6, 7, 8, 9, 10, 11]):
     out.append(Job('highlow_L%d' % L, highlow_soundness,
                    dict(L=L, middle_bits=3, width=(5 * L) // 2 + 8),
-                   timeout=1800 if thorough else 400, cost=2**(L - 5)))
+                   timeout=3000 if thorough else 400, cost=2**(L - 5)))
   from harness import checklevel  # pylint: disable=g-import-not-at-top
   out += checklevel.relational_jobs('C01', ('c01',), tier)
   from harness import selftest  # pylint: disable=g-import-not-at-top
